@@ -77,6 +77,20 @@ class Graph(NamedTuple):
     deps: List[Edge]
 
 
+def _reaches(deps: "OrderedDict[Tuple[PyHash, PyHash], Edge]", src: PyHash, dst: PyHash) -> bool:
+    """True if dst can be reached from src by following the edges recorded so far."""
+    seen: Set[PyHash] = set()
+    todo = [src]
+    while todo:
+        k = todo.pop()
+        if k == dst:
+            return True
+        if k not in seen:
+            seen.add(k)
+            todo.extend(b for (a, b) in deps if a == k)
+    return False
+
+
 def _structure(
     fis: FunctionInteractions, indirect_refs: Dict[DDSPath, PyHash]
 ) -> Graph:
@@ -139,6 +153,9 @@ def _structure(
                             and k1 not in node_deps[k2]
                             and k1 not in sub_set
                             and k2 not in sub_set
+                            # node_deps does not know the load edges nor the dependencies found
+                            # after a node was first reached: never close a cycle.
+                            and not _reaches(deps, k2, k1)
                         ):
                             deps[k] = Edge(n1.path, n2.path, ImplicitEdge)
                             node_deps[k2].add(k1)
